@@ -105,18 +105,19 @@ theorem memok_step (c : Cfg) (s : State) (i : In) (h : MemOk c s) (hi : rowFull 
     · rw [getElem!_neg s.mem s.consume hlt]
       have hd : (default : Entry).addr = 0 := rfl
       rw [hd]; simp [rowFull]; exact Nat.two_pow_pos _
+  have hset : ∀ (k : Nat) (e : Entry), e ∈ s.mem.set! k ⟨i.we, i.addr⟩ → rowFull c e.addr < 2 ^ c.rowbits := by
+    intro k e he
+    rcases Array.mem_or_eq_of_mem_setIfInBounds he with h1 | h1
+    · exact hm e h1
+    · rw [h1]; exact hi
   refine ⟨?_, ?_⟩
   · intro e he
     simp only [step] at he
-    split at he
-    · rcases Array.mem_or_eq_of_mem_setIfInBounds he with h1 | h1
-      · exact hm e h1
-      · rw [h1]; exact hi
-    · exact hm e he
+    repeat' split at he
+    all_goals first | exact hm e he | exact hset _ e he
   · simp only [step]
-    split
-    · exact hla
-    · exact hb
+    repeat' split
+    all_goals first | exact hi | exact hla | exact hb
 
 /-- a trace of one bank machine: per cycle its inputs and whether the refresher's precharge-all lands -/
 structure Ev where
